@@ -22,6 +22,64 @@ static const char *tmpdir = "/tmp";
 
 /* ---- mutation --------------------------------------------------------- */
 
+/* Format-aware mutants (deterministic, mutseed 1..NSPECIAL): fields that no random
+ * mutation finds reliably.  Return NULL when the file is not of that format.
+ *   1  FAR: move the last pattern size one slot up, leaving an unreferenced zero-size pattern
+ *   2  AMF (DSMI >= 1.4): row count of the first order = 0
+ *   3  AMF: row count of the last order = 0 */
+#define NSPECIAL 3
+static unsigned char *special_mutant(const unsigned char *src, long n, int which, long *outn, char *kind)
+{
+	unsigned char *b;
+	if (which == 1) {
+		long o, ps;
+		int last = -1, i, songlen;
+		if (n < 98 || memcmp(src, "FAR\xfe", 4))
+			return NULL;
+		o = 98 + (src[96] | (src[97] << 8));
+		ps = o + 259;
+		if (ps + 512 > n)
+			return NULL;
+		for (i = 0; i < 256; i++)
+			if (src[ps + 2 * i] | src[ps + 2 * i + 1]) last = i;
+		if (last < 1 || last >= 255)
+			return NULL;
+		b = (unsigned char *)malloc(n);
+		memcpy(b, src, n);
+		b[ps + 2 * (last + 1)] = src[ps + 2 * last];
+		b[ps + 2 * (last + 1) + 1] = src[ps + 2 * last + 1];
+		b[ps + 2 * last] = b[ps + 2 * last + 1] = 0;
+		songlen = src[o + 257];
+		for (i = 0; i < songlen; i++)
+			if (b[o + i] == last) b[o + i] = (unsigned char)(last + 1);
+		strcpy(kind, "far-hole");
+		*outn = n;
+		return b;
+	}
+	if (which == 2 || which == 3) {
+		int ver, chn, len;
+		long off;
+		if (n < 80 || memcmp(src, "AMF", 3) || src[3] < 0x0e)
+			return NULL;
+		ver = src[3];
+		len = src[37];
+		chn = src[40];
+		off = 41 + 32 + 2;
+		if (which == 3)
+			off += (long)(len - 1) * (2 + 2 * chn);
+		if (len < 2 || off + 2 > n)
+			return NULL;
+		(void)ver;
+		b = (unsigned char *)malloc(n);
+		memcpy(b, src, n);
+		b[off] = b[off + 1] = 0;
+		strcpy(kind, "amf-rows0");
+		*outn = n;
+		return b;
+	}
+	return NULL;
+}
+
 static unsigned char *mutate(const unsigned char *src, long n, const unsigned char *oth, long on,
 			     uint64_t mutseed, long *outn, char *kind)
 {
@@ -34,6 +92,16 @@ static unsigned char *mutate(const unsigned char *src, long n, const unsigned ch
 		memcpy(b, src, n);
 		*outn = n;
 		strcpy(kind, "intact");
+		return b;
+	}
+	if (mutseed <= NSPECIAL) {
+		b = special_mutant(src, n, (int)mutseed, outn, kind);
+		if (b == NULL) {		/* not applicable: the intact file */
+			b = (unsigned char *)malloc(n > 0 ? n : 1);
+			memcpy(b, src, n);
+			*outn = n;
+			strcpy(kind, "intact");
+		}
 		return b;
 	}
 	vrng_seed(mutseed);
@@ -138,10 +206,43 @@ static int cb_seek(void *priv, long offset, int whence)
 }
 static long cb_tell(void *priv) { return ((struct cbmem *)priv)->pos; }
 
+static char cur_fmt[32] = "?";
+
+/* file names in tags: spaces as %20 (the tag is a space-separated key=value list) */
+static const char *enc(const char *path)
+{
+	static char buf[2][4200];
+	static int which;
+	char *o = buf[which ^= 1];
+	size_t k = 0;
+	if (path == NULL)
+		return "-";
+	for (; *path && k < 4190; path++) {
+		if (*path == ' ' || *path == '%') {
+			k += (size_t)sprintf(o + k, "%%%02x", (unsigned char)*path);
+		} else {
+			o[k++] = *path;
+		}
+	}
+	o[k] = 0;
+	return o;
+}
+
+static void set_fmt(const char *type)
+{
+	int i;
+	for (i = 0; i < 31 && type[i] && type[i] != ' '; i++)
+		cur_fmt[i] = ((type[i] >= 'A' && type[i] <= 'Z') || (type[i] >= 'a' && type[i] <= 'z') ||
+			      (type[i] >= '0' && type[i] <= '9')) ? type[i] : '_';
+	cur_fmt[i] = 0;
+	if (i == 0)
+		strcpy(cur_fmt, "?");
+}
+
 static void tag(const char *file, uint64_t mutseed, int smpctl, int bypath, const char *other, const char *what)
 {
-	printf("begin wf file=%s mutseed=%llu smpctl=%d via=%s other=%s what=%s\n", file,
-	       (unsigned long long)mutseed, smpctl, via_name[bypath & 3], other ? other : "-", what);
+	printf("begin wf file=%s mutseed=%llu smpctl=%d via=%s other=%s fmt=%s what=%s\n", enc(file),
+	       (unsigned long long)mutseed, smpctl, via_name[bypath & 3], enc(other), cur_fmt, what);
 }
 
 static void delta_dump(struct context_data *ctx)
@@ -217,7 +318,7 @@ static int run_variant(const char *file, const unsigned char *bytes, long n, uin
 	} else {
 		rc = xmp_load_module_from_memory(opaque, bytes, n);
 	}
-	printf("load rc=%d file=%s mutseed=%llu smpctl=%d via=%s\n", rc, file, (unsigned long long)mutseed, smpctl,
+	printf("load rc=%d file=%s mutseed=%llu smpctl=%d via=%s\n", rc, enc(file), (unsigned long long)mutseed, smpctl,
 	       via_name[bypath & 3]);
 	if (rc == 0) {
 		/* the public view is the one we dump */
@@ -226,6 +327,7 @@ static int run_variant(const char *file, const unsigned char *bytes, long n, uin
 		    || mi.vol_base != ctx->m.volbase) {
 			printf("PUBLICVIEW mismatch\n");
 		}
+		set_fmt(ctx->m.mod.type);
 		tag(file, mutseed, smpctl, bypath, other, "load");
 		c03_dump(stdout, ctx, NULL);
 		puts("end");
@@ -309,13 +411,23 @@ int main(int argc, char **argv)
 			/* the two other entry points */
 			run_variant(file, src, n, 0, (int)(seed & 1), 2, NULL, 0);
 			run_variant(file, src, n, 0, (int)(~seed & 1), 3, NULL, 0);
+			for (k = 1; k <= NSPECIAL; k++) {
+				long m;
+				char kind[32];
+				unsigned char *b = special_mutant(src, n, k, &m, kind);
+				if (b == NULL)
+					continue;
+				printf("mutant kind=%s\n", kind);
+				run_variant(file, b, m, (uint64_t)k, 0, 0, NULL, 0);
+				free(b);
+			}
 			for (k = 0; k < nmut; k++) {
 				uint64_t ms = fnv1a(FNV_INIT ^ seed, file, strlen(file)) * 2654435761ULL + (uint64_t)k * 977 + 1;
 				long m;
 				char kind[32];
 				unsigned char *b;
 				int rc;
-				if (ms == 0) ms = 1;
+				if (ms <= NSPECIAL) ms += 1000;
 				b = mutate(src, n, oth, on, ms, &m, kind);
 				printf("mutant kind=%s\n", kind);
 				rc = run_variant(file, b, m, ms, (int)vrng_below(2), archive ? 1 : (k % 3 == 2 ? 2 + (int)vrng_below(2) : 0),
